@@ -154,10 +154,12 @@ Groups ==
          {[k |-> "end"]} }
     \* the entries of a collector: an endpoint of the application, or a call, with tags and the attribute `cid`
     [] fr.k = "ep" /\ fr.ep = Coll ->
-       { {[k |-> "stmt", kind |-> "action", text |-> e, tags |-> tg, attrs |-> <<<<"cid", "on " \o e>>>>, pos |-> NoPos] :
-            e \in EpNames, tg \in Pick(TagSets)},
+       { \* an endpoint by name, a REST endpoint by method and path
+         {[k |-> "stmt", kind |-> "action", text |-> e, tags |-> tg, attrs |-> <<<<"cid", "on " \o e>>>>, pos |-> NoPos] :
+            e \in EpNames \cup {"GET /things", "POST /a/{id}"}, tg \in Pick(TagSets)},
+         \* a call, and the call a subscriber receives from this application's event (`Sub <- Pub -> Ev`)
          {[k |-> "stmt", kind |-> "call", app |-> a, ep |-> e, text |-> "", tags |-> tg, attrs |-> <<<<"cid", "to " \o a \o " " \o e>>>>, pos |-> NoPos] :
-            a \in Apps \ {fr.app}, e \in {"Ep", "Op"}, tg \in Pick(TagSets)},
+            a \in Apps \ {fr.app}, e \in {"Ep", "Op", fr.app \o " -> Ev"}, tg \in Pick(TagSets)},
          (IF fr.own = 0 THEN {} ELSE {[k |-> "end"]}) }
     [] fr.k \in {"ep", "block"} /\ ~(fr.k = "ep" /\ fr.ep = Coll) ->
        { {[k |-> "stmt", kind |-> "action", text |-> t, tags |-> <<>>, attrs |-> <<>>, pos |-> NoPos] : t \in Texts}
